@@ -66,7 +66,7 @@ var (
 	c19ETags    = []string{"", "E1", "E2"}
 	c19Retry    = []string{"", "7", "future-date", "past-date", "garbage"}
 	c19Bodies   = []string{"valid", "unknown-field", "duplicate-field", "wrong-type", "invalid-json", "empty"}
-	c19Caches   = []string{"empty", "entry-E1", "expired", "entry-E1-then-rejected-call"}
+	c19Caches   = []string{"empty", "entry-E1", "expired", "entry-E1-then-rejected-call", "entry-E1-unknown-field"}
 )
 
 type c19Case struct {
@@ -120,10 +120,17 @@ func c19Run(c c19Case) []mc.Finding {
 	}
 	ex := newWebhookExecutor(sc, "http://hook.invalid/sync", common.SyncHook, mode, abstract, func() time.Time { return c19Now })
 	req := &c19Req{c19Parent()}
+	// the body the cache is primed with: well-formed, or carrying an unknown field (acceptable in loose mode only;
+	// the executor stores what arrived with the ETag before decoding it, so strict mode must reject it again when
+	// a later 304 brings it back)
+	primeBody, primeKind := c19Body("old"), "valid"
+	if c.Cache == "entry-E1-unknown-field" {
+		primeBody, primeKind = `{"status":{"v":"old"},"children":[],"bogus":1}`, "unknown-field"
+	}
 	// cache state
 	if c.Etag && c.Cache != "empty" {
 		sc.do = func(r *http.Request) (*http.Response, error) {
-			return mkResp(200, map[string]string{"ETag": "E1"}, c19Body("old")), nil
+			return mkResp(200, map[string]string{"ETag": "E1"}, primeBody), nil
 		}
 		var out c19Resp
 		if err := ex.Call(req, &out); err != nil && !c.Strict {
@@ -175,7 +182,7 @@ func c19Run(c c19Case) []mc.Finding {
 	}
 	// what was sent
 	wantINM := ""
-	if c.Etag && (c.Cache == "entry-E1" || c.Cache == "entry-E1-then-rejected-call") {
+	if c.Etag && (c.Cache == "entry-E1" || c.Cache == "entry-E1-then-rejected-call" || c.Cache == "entry-E1-unknown-field") {
 		wantINM = "E1"
 	}
 	if sentINM != wantINM && !(c.Strict && c.Cache != "empty") {
@@ -185,11 +192,11 @@ func c19Run(c c19Case) []mc.Finding {
 	notModified := (c.Status == 304 || c.Status == 412) && c.Etag && sentINM != ""
 	usedBody := body
 	if notModified {
-		usedBody = c19Body("old") // the body cached together with exactly the ETag that was sent (E1)
+		usedBody = primeBody // the body cached together with exactly the ETag that was sent (E1)
 	}
 	bodyKind := c.Body
 	if notModified {
-		bodyKind = "valid"
+		bodyKind = primeKind
 	}
 	decodeOK := bodyKind == "valid" || (!c.Strict && (bodyKind == "unknown-field" || bodyKind == "duplicate-field"))
 	wantOK := (c.Status == 200 || notModified) && decodeOK
@@ -237,7 +244,7 @@ func c19Run(c c19Case) []mc.Finding {
 	// cache content after the call: an entry's body must be the body that arrived with its ETag
 	if etagExec != nil {
 		if e, ok := etagExec.etagCache.Get(etagExec.getKeyFromObject(req.obj)); ok {
-			okPair := (e.Etag == "E1" && string(e.Response) == c19Body("old")) || (e.Etag == c.ETag && string(e.Response) == body && c.Status == 200)
+			okPair := (e.Etag == "E1" && string(e.Response) == primeBody) || (e.Etag == c.ETag && string(e.Response) == body && c.Status == 200)
 			if !okPair {
 				bad("cache-pairing", "cache holds (%q, %q) which never arrived together in an accepted answer", e.Etag, string(e.Response))
 			}
